@@ -309,15 +309,35 @@ func (g *gen) next(st *appstate.AppState, hdr *types.Header) (txInfo, bool) {
 		if c.typ == 0 && r.Intn(2) == 0 {
 			amt = chainfx_dna(int64(100 + r.Intn(2000))) // sub-deployments / cross-contract calls with pay amounts
 		}
+		if (c.typ == 1 || c.typ == 5) && balOf(a).Sign() == 0 && r.Intn(2) == 0 {
+			// dust: 0 < balance <= 100 * fee per gas is what TimeLock / Multisig burn (BurnAll) when terminated
+			amt = new(big.Int).Add(big.NewInt(1), new(big.Int).Rand(r, new(big.Int).Mul(fpg, big.NewInt(101))))
+		}
 		tx = &types.Transaction{Type: types.SendTx, To: &a, Amount: amt}
 		desc = "fund-" + cname(c)
 	case choice < 42: // terminate
 		c := g.contracts[r.Intn(len(g.contracts))]
+		if d := g.find(func(x *contract) bool {
+			b := balOf(x.addr)
+			return (x.typ == 1 || x.typ == 5) && b.Sign() > 0 && b.Cmp(new(big.Int).Mul(fpg, big.NewInt(100))) <= 0
+		}); d != nil && r.Intn(2) == 0 {
+			c = d // a contract holding dust
+		}
 		if c.typ != 0 && r.Intn(3) != 0 {
 			sender = c.owner
 		}
 		args := [][]byte{g.cc.w.Addrs[g.user()].Bytes()}
-		if r.Intn(6) == 0 {
+		switch r.Intn(8) { // aliasing destinations of the stake refund
+		case 0, 1:
+			args = [][]byte{c.addr.Bytes()} // the contract itself
+		case 2:
+			args = [][]byte{g.cc.w.Addrs[sender].Bytes()}
+		case 3:
+			args = [][]byte{common.Address{}.Bytes()}
+		case 4:
+			args = [][]byte{g.contracts[r.Intn(len(g.contracts))].addr.Bytes()}
+		}
+		if r.Intn(8) == 0 {
 			args = g.junkArgs()
 		}
 		p, _ := attachments.CreateTerminateContractAttachment(args...).ToBytes()
